@@ -386,3 +386,18 @@ Proof.
   destruct (run fwd (mkAst (Some p) i') ops) as [rs a']. destruct R as (R1 & _).
   rewrite R1. unfold unread. cbn [a_prefix a_inner]. apply Sp.
 Qed.
+
+(* C18 for the sniffing rewind buffer as the server builds it: sniff first, then any op sequence on
+   the rewound stream: the C18 monitor holds w.r.t. the client's bytes from the very first one *)
+Theorem sniff_run_mon_C18 i fwd ops v p i' n :
+  Forall chunk_pos (i_rscript i) -> i_written i = [] -> sniff i = SDone v p i' n ->
+  let '(rs, a') := run fwd (mkAst (Some p) i') ops in
+  mon_C18 [] (i_stream i) ops rs (written_of a') = true.
+Proof.
+  intros Hpos Hw E. pose proof (sniff_spec i Hpos) as Sp. rewrite E in Sp.
+  destruct Sp as [Hb _ _ _ [Hw' _]].
+  assert (Hw2 : i_written i' = []) by (rewrite Hw'; exact Hw).
+  pose proof (run_mon_C18 fwd (Some p) i' ops Hw2) as R.
+  destruct (run fwd (mkAst (Some p) i') ops) as [rs a'].
+  unfold mon_C18 in *. rewrite Hb in R. cbn [app]. exact R.
+Qed.
